@@ -196,6 +196,31 @@ def spin_caller(x: int) -> int:
     if x > 0:
         return spin(x)
     return x
+
+
+@guppy
+def bad_sig(x: "NoSuchStruct") -> int:
+    return 1
+
+
+@guppy
+def calls_bad_sig(x: int) -> int:
+    return bad_sig(x)
+
+
+@guppy.comptime
+def ct_interrupt(q: qubit) -> None:
+    h(q)
+    raise KeyboardInterrupt()
+
+
+@guppy
+def qfun(x: int) -> bool:
+    q = qubit()
+    h(q)
+    if x > 0:
+        h(q)
+    return measure(q)
 '''
 
 # name -> expected fresh-session behaviour (from the language definition)
@@ -211,7 +236,13 @@ POOL = [
     ("bad_type", "check-error"), ("py_call", "check-error"),
     ("ct", "ok"), ("closure", "ok"),
     ("rec_nested", "ok"), ("spin", "ok"), ("spin_caller", "ok"),
+    ("calls_bad_sig", "check-error"), ("ct_interrupt", "compile-exc"), ("qfun", "ok"),
 ]
+# third quick phase: a caller of a definition whose SIGNATURE fails to parse (state kept by the parser
+# across a failed parse), a compile aborted by a BaseException that is not an Exception after a
+# side-effecting operation was emitted (state restored only on `except Exception` paths), and a function
+# with side-effecting operations compiled afterwards
+LATE2_DEFS = ("calls_bad_sig", "ct_interrupt", "qfun")
 # second quick phase / third thorough phase: a NON-capturing recursive nested function (registered in
 # the enclosing frame's locals by check_nested_func_def) and a function whose exit block is
 # unreachable (compile_cfg's return-variable guard sees an exit block without predecessors)
@@ -319,6 +350,8 @@ def observe(op: int, full: bool) -> dict:
                    text=rendered.splitlines())
     except RecursionError as e:
         obs.update(kind="exc", title="RecursionError", text=[str(e)])
+    except KeyboardInterrupt as e:       # raised by the pool's own comptime function, not by a user
+        obs.update(kind="exc", title="KeyboardInterrupt", text=[str(e)])
     except Exception as e:  # noqa: BLE001 - escaping non-Guppy exception
         obs.update(kind="exc", title=type(e).__name__, text=[str(e)])
     obs["sha"] = _sha(obs["kind"] + "\n" + obs.get("title", "") + "\n" + "\n".join(obs["text"]))
@@ -426,10 +459,11 @@ def phases(quick: bool) -> list[tuple[str, list[int], int]]:
     """[(label, operation indices into OPS, depth)].  Every phase explores ALL sequences
     over its operations up to its depth."""
     late = [i for i, (_w, nme) in enumerate(OPS) if nme in LATE_DEFS]
+    late2 = [i for i, (_w, nme) in enumerate(OPS) if nme in LATE2_DEFS]
     if quick:
-        return [("quick-pool", list(range(2 * QUICK_DEFS)), 2), ("late-pool", late, 2)]
+        return [("quick-pool", list(range(2 * QUICK_DEFS)), 2), ("late-pool", late, 2), ("late-pool-2", late2, 2)]
     core = [i for i, (_w, nme) in enumerate(OPS) if nme in CORE_DEFS]
-    return [("full-pool", list(range(len(OPS))), 2), ("core-pool", core, 3), ("late-pool", late, 3)]
+    return [("full-pool", list(range(len(OPS))), 2), ("core-pool", core, 3), ("late-pool", late, 3), ("late-pool-2", late2, 3)]
 
 
 def run(ctx) -> dict:
